@@ -580,10 +580,16 @@ class HyperbolicDrawing(Drawing):
             g_verts = g_path.vertices
             p1, p2 = segment.get_end_pair(as_points=True)
 
-            p1_opp_dist = np.linalg.norm(p1.coords(self.model) - g_verts[-1])
-            p2_opp_dist = np.linalg.norm(p2.coords(self.model) - g_verts[0])
-            if (p1_opp_dist < distance_threshold or
-                p2_opp_dist < distance_threshold):
+            # the piece runs the wrong way round if its END is the end
+            # nearer to the first endpoint of the edge (or its start the
+            # end nearer to the second one); comparing the two distances
+            # keeps this valid for edges shorter than distance_threshold
+            p1_coords = p1.coords(self.model)
+            p2_coords = p2.coords(self.model)
+            p1_opp_dist = np.linalg.norm(p1_coords - g_verts[-1])
+            p2_opp_dist = np.linalg.norm(p2_coords - g_verts[0])
+            if (p1_opp_dist < np.linalg.norm(p1_coords - g_verts[0]) or
+                p2_opp_dist < np.linalg.norm(p2_coords - g_verts[-1])):
                 g_verts = g_verts[::-1]
 
             g_codes = copy.deepcopy(g_path.codes)
